@@ -237,10 +237,10 @@ pub fn gen_pair(ch: &mut Chooser) -> Pair {
         2 => {
             // A runs a program file (its directory holds a library); B, fed through eval, imports that library name
             a.insert(0, "@file".to_string());
-            b.insert(0, "(import (onlya util))".to_string());
-            schedule.extend([true, false]);
+            b.splice(0..0, [ch.pick_s(&["(import (onlya util))", "(import (onlya helper))", "(import (only (onlya helper) h))"]).to_string(), "(list 'after-import)".to_string()]);
+            schedule.extend([true, false, false]);
             ia = 1;
-            ib = 1;
+            ib = 2;
             labels.push("a-runs-a-program-file");
         }
         _ => {}
@@ -288,7 +288,11 @@ fn new_instance(lib_value: i32, macro_def: Option<&str>) -> Result<Session, (Str
 fn run_file_step(s: &mut Session, who: &str, answer: i32) -> Outcome {
     let dir = std::env::temp_dir().join(format!("rv-c19-{}-{:?}-{}", std::process::id(), std::thread::current().id(), who));
     let _ = std::fs::create_dir_all(dir.join("onlya"));
-    let _ = std::fs::write(dir.join("onlya/util.sld"), format!("(define-library (onlya util) (export answer) (begin (define answer {})))\n", answer));
+    // (the file holds a second library in front of the one that is asked for)
+    let _ = std::fs::write(
+        dir.join("onlya/util.sld"),
+        format!("(define-library (onlya helper) (export h) (begin (define h {})))\n(define-library (onlya util) (export answer) (begin (define answer {})))\n", answer + 1000, answer),
+    );
     let _ = std::fs::write(dir.join("main.scm"), "(import (scheme base) (onlya util))\n(+ answer 1)\n");
     let o = s.eval_file(&dir.join("main.scm"));
     let _ = std::fs::remove_dir_all(&dir);
